@@ -15,7 +15,9 @@ from .base import Mgr, replay  # noqa: F401
 
 RULE = ('functions enumerated by truth table (all 2^(2^n), n<=3; sampled for n=4) x '
         'every order x construction route; a case is (n, order, route, truth table); '
-        'non-trivial = non-constant function; plus random interleaved histories')
+        'non-trivial = non-constant function; renaming by names under any variable map and copies '
+        'from managers with arbitrary other orders (result = THE reference of the renamed function, '
+        'table ordered and reduced); plus random interleaved histories')
 EXHAUSTIVE = {'quick': False, 'thorough': False}
 ASSUMES = []
 
@@ -185,6 +187,54 @@ def stream_copies(ctx, n, order, tts, aged):
     s.op(2, 'assert_consistent')
     for u, _ in refs:
         M.op('decref', abs(u))
+
+
+def stream_renames(ctx, n, order, order2, tts, nmaps, aged):
+    """renaming by variable names (any map, monotone or not on the support) and copying from a
+    manager with an ARBITRARY other order create nodes outside `ite`: the result must be THE
+    reference of the renamed function and the table must stay ordered and reduced"""
+    import itertools
+    rng = ctx.rng
+    M = Mgr(ctx, f'renames n={n} order={order} other={order2} aged={aged}', n, order, aged=aged)
+    s = M.s
+    s.op(1, 'new', {v: l for v, l in zip(range(n), order2)})
+    maps = []
+    for img in itertools.product([None] + list(range(n)), repeat=n):
+        d = {j: y for j, y in enumerate(img) if y is not None and y != j}
+        if d:
+            maps.append(d)
+    for t in tts:
+        f = M.build(t)
+        if f is None:
+            continue
+        M.op('incref', f)
+        for d in (maps if len(maps) <= nmaps else rng.sample(maps, nmaps)):
+            items = list(d.items())
+            rng.shuffle(items)
+            r = M.op('let_name', dict(items), f)
+            ctx.case((n, order, 'rename', t, tuple(sorted(d.items()))), any(T.depends(t, n, j) for j in d))
+            ctx.count('rename')
+            if r is None:
+                continue   # (acceptance is C04's subject)
+            M.op('incref', r)
+            e = T.rename(t, n, d)
+            g = M.build(e)
+            if g != r:
+                ctx.violation('C02:rename-second-reference',
+                              f'let({d}) of {t:#x} returned {r}, the renamed function {e:#x} is {g}', M.case())
+            M.op('decref', r)
+            if not M.check_table('C02:rename-table', f'table after let({d})'):
+                return
+        other = gen.build_tt(s, 1, t, list(range(n)))
+        c = s.op(0, 'copy', 1, other)
+        ctx.count('copy-in')
+        if c != f:
+            ctx.violation('C02:copy-second-reference',
+                          f'copy of {t:#x} from order {order2} returned {c}, the function is {f}', M.case())
+        if not M.check_table('C02:copy-table', 'table after copy'):
+            return
+        M.op('decref', f)
+    ctx.sample(dict(stream=s.label, first_lines=s.lines[:8]))
 
 
 def stream_large(ctx, n, target):
@@ -385,6 +435,12 @@ def run(ctx):
             order = rng.choice(gen.orders(n))
             stream_copies(ctx, n, order, [rng.getrandbits(1 << n) for _ in range(rng.randint(1, 3))],
                           aged=rng.random() < 0.5)
+    for n in (3, 4):
+        for _ in range(3 if q else 24):
+            order, order2 = rng.choice(gen.orders(n)), rng.choice(gen.orders(n))
+            stream_renames(ctx, n, order, order2,
+                           [rng.getrandbits(1 << n) for _ in range(3 if q else 10)] + [(1 << (1 << n)) - 2, 1 << ((1 << n) - 1)],
+                           12 if q else 60, rng.random() < 0.5)
     stream_large(ctx, 9, 320 if q else 700)
     if not q:
         stream_large(ctx, 10, 1200)
